@@ -26,7 +26,7 @@ RULE = ('simulated NLA / CHIC libraries on 1-4 contigs with molecules whose site
 ASSUMPTIONS = ['fetch margins (fragment_size) are at least the longest simulated fragment (precondition of the property)',
                'per-run molecule identifiers (mi), the per-job index (ix) and the @PG header may differ',
                'worker schedules are sampled (distinct completion orders observed are counted)']
-MIN_NONTRIVIAL = {'quick': 40, 'thorough': 400}
+MIN_NONTRIVIAL = {'quick': 40, 'thorough': 2500}
 REQUIRED_MONITORS = ['run:serial', 'run:contig_per_process', 'run:tiling_pool', 'run:tiling_nopool', 'records:compared', 'jobs:observed',
                      'ownership:records_checked', 'edge:sites_on_bin_edges']
 SHARD_TIMEOUT = {'quick': 900, 'thorough': 7200}
@@ -34,7 +34,7 @@ IGNORE_TAGS = {'mi', 'ix'}
 
 
 def gen_cases(tier, seed):
-    n = 64 if tier == 'quick' else 600
+    n = 64 if tier == 'quick' else 1600
     return [{'i': i, 'seed': seed} for i in range(n)]
 
 
